@@ -64,7 +64,7 @@ def build_impl(kind='normal'):
     if os.path.exists(exe):
         os.utime(out, None)
         return exe
-    prune_cache(40)
+    prune_cache(120)
     tmp = out + '.tmp%d' % os.getpid()
     shutil.rmtree(tmp, ignore_errors=True)
     os.makedirs(tmp)
